@@ -11,19 +11,19 @@ namespace PM.C19
 open PM.Dom
 
 /-- **escaping is lossless**: reading the five entities back gives the original text -/
-theorem unescape_escape (s : List Char) : unescape (escape s) = s := by
-  sorry
+theorem unescape_escape (s : List Char) : unescape (escape s) = s :=
+  unescape_escape' s
 
 /-- **escaped text and attribute values contain no raw markup characters** -/
 theorem escape_no_raw (s : List Char) (c : Char) (h : c ∈ escape s) :
-    c ≠ '<' ∧ c ≠ '>' ∧ c ≠ '"' ∧ c ≠ '\'' := by
-  sorry
+    c ≠ '<' ∧ c ≠ '>' ∧ c ≠ '"' ∧ c ≠ '\'' :=
+  escape_no_raw' s c h
 
 /-- every `&` in escaped output starts one of the five entities (so no text can be mistaken for one) -/
 theorem escape_amp (s : List Char) (pre post : List Char) (h : escape s = pre ++ '&' :: post) :
     (∃ r, post = "amp;".toList ++ r) ∨ (∃ r, post = "lt;".toList ++ r) ∨ (∃ r, post = "gt;".toList ++ r) ∨
-    (∃ r, post = "quot;".toList ++ r) ∨ (∃ r, post = "#x27;".toList ++ r) := by
-  sorry
+    (∃ r, post = "quot;".toList ++ r) ∨ (∃ r, post = "#x27;".toList ++ r) :=
+  escape_amp' s pre post h
 
 mutual
 /-- the text a reader recovers from rendered DOM: its text leaves, unescaped, in order -/
@@ -69,29 +69,255 @@ def snodesText : List SNode → List Char
 end
 
 mutual
+/-- the content hole, where present, is the only child of its parent element (`render_spec` raises
+    "Content hole must be the only child of its parent node" otherwise); a bare hole is not a spec -/
+def holeAlone : Spec → Bool
+  | .str _ => true
+  | .hole => false
+  | .el _ _ kids => (match kids with | [.hole] => true | _ => false) || holesAlone kids
+def holesAlone : List Spec → Bool
+  | [] => true
+  | s :: r => holeAlone s && holesAlone r
+end
+
+mutual
 /-- the hypotheses on the `toDOM` specs under which export carries the text: text nodes render as
     strings and have no children; every other node renders as a string-free element with exactly one
     hole when it has children (none needed when it has none); every rendering mark is a string-free
-    element with exactly one hole -/
+    element with exactly one hole; a hole is the only child of its parent -/
 def snodeOk : SNode → Bool
   | .mk marks spec kids =>
     marks.all (fun m => match m.2.1 with
-      | some sp => specPlain sp && holes sp == 1 && (match sp with | .el .. => true | _ => false)
+      | some sp => specPlain sp && holeAlone sp && holes sp == 1 && (match sp with | .el .. => true | _ => false)
       | none => true) &&
     (match spec with
      | .str _ => kids.isEmpty
      | .hole => false
-     | .el _ _ ks => specsPlain ks && (if kids.isEmpty then holesAll ks ≤ 1 else holesAll ks == 1)) &&
+     | .el n a ks => specsPlain ks && holeAlone (.el n a ks) &&
+        (if kids.isEmpty then holesAll ks ≤ 1 else holesAll ks == 1)) &&
     snodesOk kids
 def snodesOk : List SNode → Bool
   | [] => true
   | n :: r => snodeOk n && snodesOk r
 end
 
+private theorem textOfAll_append (a b : List Html) : textOfAll (a ++ b) = textOfAll a ++ textOfAll b := by
+  induction a with
+  | nil => simp [textOfAll]
+  | cons h t ih => simp [textOfAll, ih]
+
+mutual
+/-- a string-free spec with at most one hole, the hole alone in its parent: the rendered text is the
+    filled content if the hole is there (and it is reported found), nothing otherwise -/
+private theorem renderSpec_text (fill : List Html) : (sp : Spec) → specPlain sp = true →
+    holeAlone sp = true → holes sp ≤ 1 →
+    htmlText (renderSpec fill sp).1 = (if holes sp = 1 then textOfAll fill else []) ∧
+      (renderSpec fill sp).2 = (holes sp == 1)
+  | .str s, hp, _, _ => by simp [specPlain] at hp
+  | .hole, _, ha, _ => by simp [holeAlone] at ha
+  | .el name attrs kids, hp, ha, hh => by
+    by_cases hk : kids = [.hole]
+    · subst hk
+      simp [renderSpec, htmlText, holes, holesAll]
+    · rw [renderSpec.eq_4 _ _ _ _ (by intro h; exact hk h)]
+      have ha' : holesAlone kids = true := by
+        unfold holeAlone at ha
+        split at ha
+        · exact absurd rfl hk
+        · simpa using ha
+      have := renderSpecs_text fill kids (by simpa [specPlain] using hp) ha' (by simpa [holes] using hh)
+      simp only [htmlText, holes]
+      exact this
+private theorem renderSpecs_text (fill : List Html) : (sps : List Spec) → specsPlain sps = true →
+    holesAlone sps = true → holesAll sps ≤ 1 →
+    textOfAll (renderSpecs fill sps).1 = (if holesAll sps = 1 then textOfAll fill else []) ∧
+      (renderSpecs fill sps).2 = (holesAll sps == 1)
+  | [], _, _, _ => by simp [renderSpecs, textOfAll, holesAll]
+  | s :: r, hp, ha, hh => by
+    simp [specsPlain] at hp
+    simp [holesAlone] at ha
+    simp [holesAll] at hh
+    have h1 := renderSpec_text fill s hp.1 ha.1 (by omega)
+    have h2 := renderSpecs_text fill r hp.2 ha.2 (by omega)
+    simp only [renderSpecs, textOfAll, holesAll, h1, h2]
+    by_cases e1 : holes s = 1
+    · have e2 : holesAll r = 0 := by omega
+      simp [e1, e2]
+    · have e1' : holes s = 0 := by omega
+      by_cases e2 : holesAll r = 1
+      · simp [e1', e2]
+      · have e2' : holesAll r = 0 := by omega
+        simp [e1', e2']
+end
+
+/-- the condition `snodeOk` puts on a rendering mark's spec -/
+private def markOk (sp : Spec) : Bool :=
+  specPlain sp && holeAlone sp && holes sp == 1 && (match sp with | .el .. => true | _ => false)
+
+private theorem markOk_render (cur : List Html) (sp : Spec) (h : markOk sp = true) :
+    (renderSpec cur sp).2 = true ∧ htmlText (renderSpec cur sp).1 = textOfAll cur := by
+  simp [markOk] at h
+  obtain ⟨⟨⟨hp, ha⟩, hh⟩, _⟩ := h
+  have := renderSpec_text cur sp hp ha (by omega)
+  simp [hh] at this
+  exact ⟨this.2, this.1⟩
+
+/-- the text already collected at the levels outside the active marks, outermost first -/
+private def stackText : List Frame → List Char
+  | [] => []
+  | f :: st => stackText st ++ textOfAll f.outer
+
+private def framesOk (st : List Frame) : Prop := ∀ f ∈ st, markOk f.spec = true
+
+private theorem closeFrames_text (n : Nat) (st : List Frame) (cur : List Html) (hst : framesOk st) :
+    framesOk (closeFrames n st cur).1 ∧
+    stackText (closeFrames n st cur).1 ++ textOfAll (closeFrames n st cur).2 =
+      stackText st ++ textOfAll cur := by
+  induction n generalizing st cur with
+  | zero => simp [closeFrames, hst]
+  | succ n ih =>
+    cases st with
+    | nil => simp [closeFrames, hst]
+    | cons f st =>
+      have hf := markOk_render cur f.spec (hst f (by simp))
+      have hst' : framesOk st := fun g hg => hst g (by simp [hg])
+      rw [closeFrames.eq_3]
+      simp only [hf.1, if_true]
+      have := ih st (f.outer ++ [(renderSpec cur f.spec).1]) hst'
+      refine ⟨this.1, ?_⟩
+      rw [this.2, textOfAll_append]
+      simp [stackText, textOfAll, hf.2]
+
+private theorem closeFrames_all (st : List Frame) (cur : List Html) :
+    (closeFrames st.length st cur).1 = [] := by
+  induction st generalizing cur with
+  | nil => simp [closeFrames]
+  | cons f st ih => simp [closeFrames, ih]
+
+private theorem keepCount_sub (as : List Frame) (ms : List (Nat × Option Spec × Bool)) :
+    ∀ m ∈ (serFrag.keepCount as ms).2, m ∈ ms := by
+  induction ms generalizing as with
+  | nil => rw [serFrag.keepCount.eq_3 _ _ (by simp) (by simp)]; simp
+  | cons m ms ih =>
+    obtain ⟨i, osp, b⟩ := m
+    cases osp with
+    | none =>
+      rw [serFrag.keepCount.eq_2]
+      intro m hm; exact List.mem_cons_of_mem _ (ih as m hm)
+    | some sp =>
+      cases as with
+      | nil => rw [serFrag.keepCount.eq_3 _ _ (by simp) (by simp)]; simp
+      | cons a as =>
+        rw [serFrag.keepCount.eq_1]
+        split
+        · intro m hm; exact List.mem_cons_of_mem _ (ih as m hm)
+        · simp
+
+private theorem open_text (toAdd : List (Nat × Option Spec × Bool)) (st : List Frame) (cur : List Html)
+    (hm : ∀ m ∈ toAdd, ∀ sp, m.2.1 = some sp → markOk sp = true) (hst : framesOk st) :
+    let r := toAdd.foldl (fun (acc : List Frame × List Html) (m : Nat × Option Spec × Bool) =>
+      match m.2.1 with
+      | some sp => ({ mark := m.1, spec := sp, outer := acc.2 } :: acc.1, [])
+      | none => acc) (st, cur)
+    framesOk r.1 ∧ stackText r.1 ++ textOfAll r.2 = stackText st ++ textOfAll cur := by
+  induction toAdd generalizing st cur with
+  | nil => simp [hst]
+  | cons m ms ih =>
+    obtain ⟨i, osp, b⟩ := m
+    cases osp with
+    | none =>
+      simp only [List.foldl_cons]
+      exact ih st cur (fun m h => hm m (List.mem_cons_of_mem _ h)) hst
+    | some sp =>
+      simp only [List.foldl_cons]
+      have hsp : markOk sp = true := hm (i, some sp, b) (by simp) sp rfl
+      have hst' : framesOk ({ mark := i, spec := sp, outer := cur } :: st) := by
+        intro f hf
+        rcases List.mem_cons.1 hf with rfl | hf
+        · exact hsp
+        · exact hst f hf
+      have := ih ({ mark := i, spec := sp, outer := cur } :: st) [] (fun m h => hm m (List.mem_cons_of_mem _ h)) hst'
+      refine ⟨this.1, ?_⟩
+      rw [this.2]
+      simp [stackText, textOfAll]
+
+mutual
+private theorem serNode_text : (n : SNode) → snodeOk n = true → htmlText (serNode n) = snodeText n
+  | .mk marks spec kids, h => by
+    rw [serNode]
+    cases spec with
+    | str s => simp [renderSpec, htmlText, snodeText, unescape_escape]
+    | hole => simp [snodeOk] at h
+    | el n a ks =>
+      simp [snodeOk] at h
+      obtain ⟨⟨_, ⟨hp, ha⟩, hh⟩, hk⟩ := h
+      have ih := serFrag_text kids [] [] hk (by intro f hf; simp at hf)
+      simp [stackText, textOfAll] at ih
+      have hh' : holesAll ks ≤ 1 := by
+        split at hh
+        · simpa using hh
+        · omega
+      have := (renderSpec_text (serFrag kids [] []) (.el n a ks) (by simpa [specPlain] using hp) ha
+        (by simpa [holes] using hh')).1
+      rw [this, ih]
+      simp only [snodeText, holes]
+      by_cases hne : holesAll ks = 1
+      · simp [hne]
+      · cases kids with
+        | nil => simp [snodesText, hne]
+        | cons k ks' => simp at hh; exact absurd hh hne
+private theorem serFrag_text : (ns : List SNode) → (stack : List Frame) → (cur : List Html) →
+    snodesOk ns = true → framesOk stack →
+    textOfAll (serFrag ns stack cur) = stackText stack ++ textOfAll cur ++ snodesText ns
+  | [], stack, cur, _, hst => by
+    rw [serFrag]
+    have h1 := closeFrames_text stack.length stack cur hst
+    have h2 := closeFrames_all stack cur
+    rw [h2] at h1
+    simp [stackText] at h1
+    simp [h1.2, snodesText]
+  | (.mk marks spec kids) :: rest, stack, cur, h, hst => by
+    simp only [snodesOk, Bool.and_eq_true] at h
+    have hn := serNode_text (.mk marks spec kids) h.1
+    rw [serFrag.eq_2]
+    have hsub := keepCount_sub stack.reverse marks
+    generalize serFrag.keepCount stack.reverse marks = kc at hsub
+    obtain ⟨keep, toAdd⟩ := kc
+    simp only
+    have hc := closeFrames_text (stack.length - keep) stack cur hst
+    generalize closeFrames (stack.length - keep) stack cur = cf at hc
+    obtain ⟨stack1, cur1⟩ := cf
+    simp only at hc ⊢
+    have hmarks : ∀ m ∈ toAdd, ∀ sp, m.2.1 = some sp → markOk sp = true := by
+      intro m hm sp hsp
+      have hm' := hsub m hm
+      have h1 := h.1
+      simp only [snodeOk, Bool.and_eq_true, List.all_eq_true] at h1
+      have := h1.1.1 m hm'
+      rw [hsp] at this
+      simpa [markOk] using this
+    have ho := open_text toAdd stack1 cur1 hmarks hc.1
+    simp only at ho
+    generalize List.foldl _ (stack1, cur1) toAdd = fo at ho ⊢
+    obtain ⟨stack2, cur2⟩ := fo
+    simp only at ho ⊢
+    rw [serFrag_text rest stack2 _ h.2 ho.1, textOfAll_append]
+    simp only [textOfAll, List.append_nil, hn, snodesText]
+    rw [← List.append_assoc (stackText stack2), ho.2, hc.2]
+    simp [List.append_assoc]
+end
+
+-- STATEMENT CHANGED (via `snodeOk`, which now also demands `holeAlone`: a content hole is the only
+-- child of its parent).  Python's `render_spec` raises "Content hole must be the only child of its
+-- parent node" on such specs; the model's `renderSpec` instead renders the hole as an empty text and
+-- drops the content.  Counterexample to the old statement:
+--   `[.mk [] (.el "p" [] [.el "br" [] [], .hole]) [.mk [] (.str "a") []]]` satisfied the old `snodesOk`,
+--   serialises to `<p><br></p>` (text `""`), but `snodesText` is `"a"`.
 /-- **export carries the text**: for well-formed specs, the text an HTML reader recovers from the
     serialised fragment is exactly the document's text, in order, whatever the mark nesting -/
 theorem serialize_text (kids : List SNode) (h : snodesOk kids = true) :
     textOfAll (serFrag kids [] []) = snodesText kids := by
-  sorry
+  have := serFrag_text kids [] [] h (by intro f hf; simp at hf)
+  simpa [stackText, textOfAll] using this
 
 end PM.C19
